@@ -22,7 +22,7 @@ import (
 
 var c13Faults = []string{"path-1pt", "path-2pt", "path-open", "path-clockwise", "path-missing-point", "area-missing-path",
 	"area-open-path", "invalid-id", "move-point", "new-path-missing-point", "hole-open",
-	"merged-fail-first", "merged-fail-middle", "merged-fail-last", "merged-all-valid"}
+	"merged-fail-first", "merged-fail-middle", "merged-fail-last", "merged-all-valid", "merged-fail-tag-last", "merged-fail-tag-middle"}
 
 var c13Worlds = []string{"basic-mutable", "overlay-target-in-base", "overlay-path-resident", "overlay-area-resident", "overlay-all-resident", "overlay-on-overlay"}
 
@@ -47,7 +47,7 @@ func init() {
 		Assumptions: []string{"the observation dump (lookups, tags, geometry, locations, searches, references, traversal, enumeration, tokens) is what 'answers every query' means"},
 		Quick:       len(c13Faults) * len(c13Worlds) * 4, Thorough: len(c13Faults) * len(c13Worlds) * 300,
 		Required: []string{"rejected", "rejected_basic-mutable", "rejected_overlay-target-in-base", "rejected_overlay-path-resident",
-			"fault_path-open", "fault_move-point", "fault_merged-fail-middle", "merged_all_valid_applied"},
+			"fault_path-open", "fault_move-point", "fault_merged-fail-middle", "fault_merged-fail-tag-last", "merged_all_valid_applied"},
 		Run: func(c *core.Ctx) {
 			r := c.R
 			fault := c13Faults[c.Index%len(c13Faults)]
@@ -209,6 +209,10 @@ func init() {
 					change = ingest.MergedChange{validTag, validAdd, validRemove, invalid}
 				case "merged-all-valid":
 					change = ingest.MergedChange{validTag, validAdd, validRemove}
+				case "merged-fail-tag-last": // the part that fails is a tag edit (on a feature that is not there)
+					change = ingest.MergedChange{validAdd, validTag, validRemove, ingest.AddTags{{ID: absentPoint, Tag: b6.Tag{Key: "#amenity", Value: b6.NewStringExpression("cafe")}}}}
+				case "merged-fail-tag-middle":
+					change = ingest.MergedChange{validAdd, ingest.AddTags{{ID: ringPts[1].ID, Tag: b6.Tag{Key: "name", Value: b6.NewStringExpression("x")}}, {ID: absentPath, Tag: b6.Tag{Key: "name", Value: b6.NewStringExpression("x")}}}, validRemove}
 				}
 				before := obs.Take(world, probes)
 				var cerr error
